@@ -30,6 +30,12 @@ impl Out {
         self.cases += 1;
         let _ = writeln!(self.w, "{op}\t{args}\t{real}");
     }
+    /// record the case that is about to run (for cases that may take the whole process down: stack overflow, allocation failure)
+    pub fn starting(op: &str, args: &str) {
+        if let Ok(path) = std::env::var("VERIF_LASTFILE") {
+            let _ = std::fs::write(path, format!("{op}\t{args}"));
+        }
+    }
     pub fn comment(&mut self, s: &str) {
         let _ = writeln!(self.w, "# {s}");
     }
